@@ -71,7 +71,7 @@ public:
     bool fetchUnits(const UnitsPtr &importUnits, const std::string &baseFile, History &history);
 
     bool checkForImportCycles(const ImportSourcePtr &importSource, const History &history, const HistoryEpochPtr &h, const std::string &action);
-    bool checkUnitsForCycles(const UnitsPtr &units, History &history);
+    bool checkUnitsForCycles(const UnitsPtr &units, History &history, std::vector<UnitsPtr> &visiting);
     bool checkComponentForCycles(const ComponentPtr &component, History &history);
 
     /**
@@ -147,20 +147,31 @@ std::string Importer::ImporterImpl::resolvingUrl(const ImportSourcePtr &importSo
     return modelUrl(model);
 }
 
-bool Importer::ImporterImpl::checkUnitsForCycles(const UnitsPtr &units, History &history)
+bool Importer::ImporterImpl::checkUnitsForCycles(const UnitsPtr &units, History &history, std::vector<UnitsPtr> &visiting)
 {
     // Even if these units are not imported, they might have imported children.
     if (!units->isImport()) {
+        // Ordinary units that are defined in terms of themselves cannot be flattened.
+        if (std::find(visiting.begin(), visiting.end(), units) != visiting.end()) {
+            auto issue = Issue::IssueImpl::create();
+            issue->mPimpl->setDescription("Units '" + units->name() + "' is defined, directly or indirectly, in terms of itself.");
+            issue->mPimpl->mItem->mPimpl->setUnits(units);
+            issue->mPimpl->setReferenceRule(Issue::ReferenceRule::UNIT_UNITS_CIRCULAR_REFERENCE);
+            addIssue(issue);
+            return true;
+        }
+        visiting.push_back(units);
         for (size_t index = 0; index < units->unitCount(); ++index) {
             std::string ref = units->unitAttributeReference(index);
             // If the child units are imported, check them too.
             auto model = owningModel(units);
             if (model->hasUnits(ref)) {
-                if (checkUnitsForCycles(model->units(ref), history)) {
+                if (checkUnitsForCycles(model->units(ref), history, visiting)) {
                     return true;
                 }
             }
         }
+        visiting.pop_back();
         return false;
     }
 
@@ -195,7 +206,11 @@ bool Importer::ImporterImpl::checkUnitsForCycles(const UnitsPtr &units, History 
         return true;
     }
 
-    return checkUnitsForCycles(importedUnits, history);
+    std::vector<UnitsPtr> importedVisiting;
+    bool cyclic = checkUnitsForCycles(importedUnits, history, importedVisiting);
+    history.pop_back();
+
+    return cyclic;
 }
 
 bool Importer::ImporterImpl::checkComponentForCycles(const ComponentPtr &component, History &history)
@@ -243,7 +258,8 @@ bool Importer::ImporterImpl::hasImportIssues(const ModelPtr &model)
 
     for (const UnitsPtr &units : getImportedUnits(model)) {
         history.clear();
-        if (checkUnitsForCycles(units, history)) {
+        std::vector<UnitsPtr> visiting;
+        if (checkUnitsForCycles(units, history, visiting)) {
             return true;
         }
     }
